@@ -47,8 +47,9 @@ def check(run):
     # B2: non-ASCII members - letters with irregular case mappings next to their ASCII relatives (vlib.UNI_GROUPS), as far as
     # the real parser accepts them. maven and alpm are left to C07's families: their regular / irregular classification
     # (KnownFindings.tla) reads the exact text.
-    accU = vlib.accept_filter(run, exe, {e: [t for t, _ in rnd.sample(U[e], min(len(U[e]), 400))] for e in U if e not in ("maven", "alpm")}, name="uniacc")
-    uni = vlib.unicode_families(run, exe, accU, rnd, per_eco=4 if quick else 16, size=6)
+    urnd = random.Random(run.seed * 7919 + 1)     # own stream: the draws of the other families are unchanged
+    accU = vlib.accept_filter(run, exe, {e: [t for t, _ in urnd.sample(U[e], min(len(U[e]), 400))] for e in U if e not in ("maven", "alpm")}, name="uniacc")
+    uni = vlib.unicode_families(run, exe, accU, urnd, per_eco=4 if quick else 16, size=6)
     run.extra["non_ascii_families"] = {e: len(uni[e]) for e in uni if uni[e]}
     for eco in sorted(uni):
         texts = list(dict.fromkeys(x for fam in uni[eco] for x in fam))
